@@ -155,7 +155,7 @@ PROPS["C12"] = dict(
     module="Panacea.Properties.C12",
     obligations=["Panacea.C12.admitted_ids_have_no_nul", "Panacea.C12.pairs_do_not_alias", "Panacea.C12.mint_existing_refused",
                  "Panacea.C12.token_metadata_immutable", "Panacea.C12.denomsByOwner_exact", "Panacea.C12.delete_nonempty_refused", "Panacea.C12.pinv_genesis", "Panacea.C12.pinv_reachable", "Panacea.C12.token_belongs_to_existing_denom", "Panacea.C12.queried_token_has_denom", "Panacea.C12.pnfts_listing_exact", "Panacea.C12.pnfts_listing_length", "Panacea.C12.oinv_genesis", "Panacea.C12.lawful_decShort", "Panacea.C12.invariants_reachable", "Panacea.C12.pnftsByDenomOwner_listing_exact", "Panacea.C12.token_has_owner"],
-    streams=PNFT_STREAM, trusted=PNFT_TRUSTED,
+    streams=PNFT_STREAM + [dict(name="genesis", quick=3, thorough=60, thorough_seeds=2)], trusted=PNFT_TRUSTED,
     assumptions=["PInv s0 (supply = number of token entries under the denom's prefix, entries keyed by their own ids, every token's class exists): proved for the empty store, preserved by every message while fewer than 2^64 tokens exist (B + history length < 2^64)",
                  "OInv s0 (owner table has exactly the token keys; owner index has exactly one entry per token under its current owner): same status; decoded addresses shorter than 256 bytes (AddrCodec.Lawful)"],
     note="theorems are about the code after fixes 38809bd7 (F7), 463feecd (F8), 3b7d7856 (F9)",
@@ -347,7 +347,7 @@ REFINE = {
     "C16": ([_RT, _RD, _RP, _RA], R_VB + R_DIDV + R_PNFTV + R_AOL[:4]),
     "C17": ([_RT, _RC, _RD, _RP, _RAQ, _RK], R_VB + R_SIGNERS + R_COMPKEY + R_DIDV[-3:] + R_PNFTV + R_AOLQ + R_DIDK),
     "C06": ([_RP, _RPP], R_PNFTV + R_PNFTH + R_PNFTP06),
-    "C12": ([_RP, _RPP, _RPQ], R_PNFTH + R_PNFTP12),
+    "C12": ([_RP, _RPP, _RPQ, _RPG], R_PNFTH + R_PNFTP12 + R_PNFTG),
     "C11": ([_RD, _RK], R_DIDV[-4:] + R_DIDK[3:5]),
     "C03": ([_RD, _RK, _RDG], R_DIDV[3:5] + R_DIDV[6:7] + R_DIDK + R_DIDG[-2:-1]),
     "C07": ([_RB], R_BURN),
